@@ -38,16 +38,24 @@ func ruleMustHold(c *core.Ctx, rule string, pkg *packages.Package, spec holdSpec
 	}
 	var units []*unit
 	for _, f := range core.AllFuncs(pkg) {
+		name := spec.Typ + "." + f.Decl.Name.Name
 		if core.RecvName(f.Decl) != spec.Typ {
-			continue
+			// a plain function or another type's method: its own body may build an unpublished object (constructor), but the
+			// function literals in it run later, on a published one
+			if f.Decl.Recv != nil {
+				name = core.RecvName(f.Decl) + "." + f.Decl.Name.Name
+			} else {
+				name = f.Decl.Name.Name
+			}
+		} else {
+			m, _ := info.Defs[f.Decl.Name].(*types.Func)
+			units = append(units, &unit{name: name, body: f.Decl.Body, pos: f.Decl.Pos(), method: m})
 		}
-		m, _ := info.Defs[f.Decl.Name].(*types.Func)
-		units = append(units, &unit{name: spec.Typ + "." + f.Decl.Name.Name, body: f.Decl.Body, pos: f.Decl.Pos(), method: m})
 		k := 0
 		ast.Inspect(f.Decl.Body, func(nd ast.Node) bool {
 			if fl, ok := nd.(*ast.FuncLit); ok {
 				k++
-				units = append(units, &unit{name: spec.Typ + "." + f.Decl.Name.Name + "#func" + string(rune('0'+k)), body: fl.Body, pos: fl.Pos()})
+				units = append(units, &unit{name: name + "#func" + string(rune('0'+k)), body: fl.Body, pos: fl.Pos()})
 			}
 			return true
 		})
